@@ -23,7 +23,10 @@ def taken(pid):
                     notes=line.strip('# \n'); break
         out.append(f"{', '.join(files)} [{'; '.join(x[:90] for x in funcs[:2])}] - {notes[:160]}")
     return out
+ONLY_PROPS = set(sys.argv[4].split(",")) if len(sys.argv) > 4 else None
 for pid, p in props.items():
+    if ONLY_PROPS and pid not in ONLY_PROPS:
+        continue
     wt = f"/tmp/s{ROUND}-{pid}"
     if not os.path.isdir(wt):
         subprocess.check_call(['git','-C','/repo','worktree','add','--detach',wt,head], stdout=subprocess.DEVNULL, stderr=subprocess.DEVNULL)
